@@ -355,7 +355,7 @@ def check_case(ctx, cell, case):
 SHAPES = st.one_of(st.tuples(st.integers(2, 64)), st.tuples(st.just(1), st.integers(2, 64)), st.tuples(st.integers(2, 6), st.integers(2, 64)),
                    st.tuples(st.integers(2, 4), st.integers(1, 3), st.integers(2, 32)), st.tuples(st.integers(2, 3), st.integers(1, 3), st.integers(2, 6), st.integers(2, 6)))
 ANT_SHAPES = st.one_of(st.tuples(st.integers(1, 4), st.integers(1, 4), st.integers(2, 32)), st.tuples(st.integers(1, 3), st.integers(1, 4), st.integers(2, 6), st.integers(2, 6)))
-TARGET = st.sampled_from([1e-2, 0.1, 0.5, 1.0, 4.0, 30.0, 1e3])
+TARGET = st.sampled_from([1e-4, 1e-3, 1e-2, 0.1, 0.5, 1.0, 4.0, 30.0, 1e3])
 SCALE = st.sampled_from([1e-2, 0.1, 1.0, 7.0, 1e2, 1e4])
 
 
